@@ -208,8 +208,8 @@ func init() {
 			qk := FuncKey(q)
 			qa := e.FA(q)
 			lits := Complits(q, "types.Undelegation")
-			if len(lits) < 2 {
-				r.Bad(qk, "entry literal", fmt.Sprintf("expected an Undelegation literal on both branches (new bucket / append), found %d", len(lits)), nil, e.Pos(q.Pos()))
+			if len(lits) < 1 {
+				r.Bad(qk, "entry literal", fmt.Sprintf("expected an Undelegation value built from the parameters, found %d", len(lits)), nil, e.Pos(q.Pos()))
 			}
 			for i, a := range lits {
 				f := complitFields(qa, a)
